@@ -253,6 +253,31 @@ def c11(tier, seed):
     ]
 
 
+def c18(tier, seed):
+    q = tier == "quick"
+    return [
+        MC("Gen_Loaders", dict(Groups="={}"), invariants=["SepIrrelevant"], label="MC_Loaders/separator"),
+        GEN("Gen_Loaders", {}, "loaders", label="Gen_Loaders/documents-x-3-front-ends", min_cases=500),
+        TRACE("Trace_Normalize", "loaders", n=3000 if q else 60000, label="Trace_Normalize/random-documents",
+              trace_file="trace_norm.ndjson", known_const="Groups"),
+    ]
+
+
+def c07(tier, seed):
+    q = tier == "quick"
+    core = dict(STORE_CORE, MaxOps=2 if q else 3, TreeOnly=True)
+    return [
+        MC("MC_Store", core, invariants=["NoPanic"], spec="Spec", label="MC_Store/no-panic"),
+        MC("MC_Store", core, invariants=["NoPanic"], spec="Spec", dev={"NegativeIndexPanics"}, expect_violation=True,
+           label="MC_Store/refute-NegativeIndexPanics"),
+        MC("Gen_Parse", dict(MaxLen=3, Alphabet="<-AlphaFull", Docs="<-DocsQuick", Groups='={{"EofPanics"}}'), invariants=["NoPanicKnown"],
+           expect_violation=True, label="MC_Parse/refute-EofPanics"),
+        parse_gen(tier, label="Gen_Parse/all-short-strings"),
+        GO("robust", "fuzz", args=["--mutations", "3000" if q else "40000", "--splice-len", "6" if q else "7"],
+           label="robust/mutation+enumeration", min_cases=100000),
+    ]
+
+
 ASSUME_COMMON = [
     "the public-API observation (Unpack into map and slice, canonicalised) reads the abstract state faithfully",
     "TLC, the JVM, the Go toolchain and runtime",
@@ -286,6 +311,26 @@ REIFY_RULE = ("Gen_Reify: target struct{G int; F T (validate:v); H int} built wi
               "non-trivial: every case; distinct by (type, validator, pre-fill, config)")
 
 CHECKS = {
+    "C07": dict(stages=c07, family="robust",
+                rule="TLC: NoPanic of the store machine (every Set/Remove/Child call of the universe in every reachable state) and of the value "
+                     "parser; Gen_Parse: every string of <= 4 (5) characters under four parser configs; robust: byte-level mutations (drop, duplicate, "
+                     "swap, truncate, replace, insert; 1-3 per document) of YAML/JSON/HJSON documents and flag argument lists fed to the three loaders "
+                     "and FlagValue.Set, every string of <= 6 (7) characters over $ { } : + ? a . stored under VarExp and read in seven ways with the "
+                     "goroutine count compared, random 6-25 character parser inputs under six configs - all in child processes with a deadline; 31 "
+                     "adversarial names x 12 indices (negative, MaxIdx, 2^31, 2^62, MaxInt64, MinInt64) x 5 option sets through every getter, setter, "
+                     "Has, Remove, Child, CountField with the allocated list length compared with MaxIdx+1; 40 unpack targets (nil, typed nil, chan, "
+                     "func, complex, non-string-keyed maps, nested pointers, unexported fields) x 4 sources; 15 unsupported merge sources. "
+                     "non-trivial: every case; distinct by request",
+                exhaustive=False,
+                assumptions=ASSUME_COMMON + ["the YAML/JSON/HJSON decoders are third-party code: their robustness is explored by mutation only",
+                                             "a dead or timed-out child process is the observation 'did not return'"]),
+    "C18": dict(stages=c18, family="loaders",
+                rule="Gen_Loaders: documents {k1: v1, c: v2} with k1 in {a, a.b, 'k k'}, v1 over 15 awkward strings (yes, ~, 2001-01-01, 1:30, null, "
+                     "'', 1e3, 0x1f, a$b, ...), 5 boundary numbers, booleans, null, nested objects and lists; each rendered compact and indented and "
+                     "loaded by yaml/json/hjson NewConfig and NewConfigWithFile, with and without PathSep and VarExp (24 loads per rendering); "
+                     "Trace_Normalize: random documents (48 awkward strings, 17 awkward keys, 15 numbers) through a random front-end. "
+                     "non-trivial: every document; distinct by document",
+                assumptions=ASSUME_COMMON + ["the YAML, JSON and HJSON decoders are third-party code outside the specification; the documents are JSON text, which all three accept"]),
     "C11": dict(stages=c11, family="readers",
                 rule="the worlds of Gen_VarExp (references, repeated references, splices, defaults, Env configs, resolvers); per world: nine read "
                      "operations (String x5, Unpack into map, Unpack into a struct capturing a *Config, Has/CountField/Child/GetFields/Path, use "
